@@ -205,6 +205,28 @@ Definition recover_with (trunc : bool) (d : disk) : rres :=
   end.
 Definition recover : disk -> rres := recover_with true.
 
+(** one start-up of the node (app.GenerateBitXHubWithoutOrder): ledger.New, then the read-only
+    VIEW ledger, a second NewSimpleLedger on the same state store (error class 6 when it cannot
+    be opened) *)
+Definition startup_with (trunc : bool) (d : disk) : rres :=
+  match recover_with trunc d with
+  | RecErr c => RecErr c
+  | RecOk l => match state_open (dk_state (l_disk l)) with
+               | None => RecErr 6
+               | Some _ => RecOk l
+               end
+  end.
+(** two start-ups in a row: the node is stopped again before it executes anything (error
+    classes of the second start-up are shifted by 20) *)
+Definition startup_twice_with (trunc : bool) (d : disk) : rres :=
+  match startup_with trunc d with
+  | RecErr c => RecErr c
+  | RecOk l => match startup_with trunc (l_disk l) with
+               | RecErr c => RecErr (20 + c)
+               | RecOk l2 => RecOk l2
+               end
+  end.
+
 (** * Observables of a live ledger: every chain lookup, state version, running state root,
     and the state data *)
 Record lobs := mkLobs { lo_chain : obs; lo_version : N; lo_root : N; lo_data : list N }.
@@ -216,7 +238,7 @@ Definition lobs_eqb (a b : lobs) : bool :=
   && nlist_eqb (lo_data a) (lo_data b).
 
 (** * The experiment the driver performs and the judge re-runs: commit [pre] cleanly, die in
-    the commit of [b] after the units [S], restart, observe, execute the remaining blocks of
+    the commit of [b] after the units [S], start up twice in a row, observe, execute the remaining blocks of
     [pre ++ b :: post], observe *)
 Record outcome := mkOut {
   oc_rec : N;                 (* 0 restart succeeded, else the error class *)
@@ -237,7 +259,7 @@ Section Experiment.
     match commit_all hash_hdr root sroot ledger_empty pre with
     | None => None
     | Some ln =>
-        match recover_with trunc (crash hash_hdr root sroot S ln b) with
+        match startup_twice_with trunc (crash hash_hdr root sroot S ln b) with
         | RecErr c => Some (mkOut c None 7 None)
         | RecOk l =>
             match continue_from l (pre ++ b :: post) with
